@@ -45,7 +45,10 @@ PROPS = {
              "clean although one of its inputs was re-validated in the same build (the off-by-one case)."),
     "C03": a("each history executed three times (as generated / restart before every build / no restart) in the canonical completion "
              "mode and compared per build; database read back through a fresh connection after every build and compared with the "
-             "shadow; hostile key/value byte alphabets; version-pair and lock-out scenarios. Non-trivial: >=2 restarts and a rule "
+             "shadow; hostile key/value byte alphabets (NUL, leading NUL, non-UTF-8, numeric-looking, 4 KiB; empty values); client-version "
+             "changes and rewritten schema versions (recreated empty, or rejected with the file untouched when recreate is off); a "
+             "second engine attaching or building while a build holds the database (must fail after the simulated busy timeout, file "
+             "and journal unchanged). Non-trivial: >=2 restarts and a rule "
              "skipped thanks to a persisted result."),
     "C04": a("for each sampled history one build is chosen and EVERY VFS call of that build is a kill point (exhaustive over kill "
              "points of that build, not over histories); surviving image checked, history continued. Non-trivial: kill landed after "
@@ -179,3 +182,8 @@ PROPS["C18"] = {
                     "preemption at synchronisation operations, simulated syscalls and harness yield points only"],
     "budget": {"quick": 60, "thorough": 1200},
 }
+
+# ThreadSanitizer stages beyond C06/C16: the same campaigns with the real sources instrumented and the scheduler not
+PROPS["C05"]["tsan"] = {"quick": 15, "thorough": 200}
+PROPS["C10"] = dict(PROPS["C10"], tsan={"quick": 15, "thorough": 200})
+PROPS["C18"]["tsan"] = {"quick": 15, "thorough": 200}
